@@ -25,10 +25,15 @@ FIVE = [[(0, 0, 0), (1, 0, 0), (0, 1, 0), (0, 0, 1)], [(1, 1, 0), (0, 1, 0), (1,
         [(1, 0, 0), (0, 1, 0), (0, 0, 1), (1, 1, 1)]]
 
 
-def node_pos(i, j, k, pert, shift):
-    """Grid node (i,j,k) moved by pert * offset, the offset chosen from the table by a node parity rule."""
+SPACINGS = [(1.0, 1.0, 1.0), (0.5, 2.0, 1.25)]
+
+
+def node_pos(i, j, k, pert, shift, spacing=0):
+    """Grid node (i,j,k) moved by pert * offset (in cell units), the offset chosen from the table by a node parity
+    rule; then the cell spacing (unit or anisotropic) is applied."""
     o = OFFSETS[(i + 2 * j + 3 * k + shift) % 5]
-    return (i + pert * o[0], j + pert * o[1], k + pert * o[2])
+    h = SPACINGS[spacing]
+    return ((i + pert * o[0]) * h[0], (j + pert * o[1]) * h[1], (k + pert * o[2]) * h[2])
 
 
 def det3(a, b, c):
@@ -39,7 +44,7 @@ def sub(a, b):
     return (a[0] - b[0], a[1] - b[1], a[2] - b[2])
 
 
-def block(kind, dims, pert=0.0, shift=0):
+def block(kind, dims, pert=0.0, shift=0, spacing=0):
     """-> (nodes: {natural id: (x,y,z)}, elements: [list of natural node ids in connectivity order],
            boundary: set of natural node ids on the block surface).  Natural ids run 1..N in grid order."""
     nx, ny, nz = dims
@@ -50,7 +55,7 @@ def block(kind, dims, pert=0.0, shift=0):
     for k in range(nz + 1):
         for j in range(ny + 1):
             for i in range(nx + 1):
-                nodes[nid(i, j, k)] = node_pos(i, j, k, pert, shift)
+                nodes[nid(i, j, k)] = node_pos(i, j, k, pert, shift, spacing)
                 if i in (0, nx) or j in (0, ny) or k in (0, nz):
                     boundary.add(nid(i, j, k))
     elements = []
